@@ -120,29 +120,33 @@ Theorem C10_smgr_roots_effect : forall c,
 Proof. exact smgr_roots_effect. Qed.
 Print Assumptions C10_smgr_roots_effect.
 
-(* how do() ends, by what happened inside: a plain Exception leaves do() only when state.change() raised *)
+(* how do() ends, by what happened inside: a plain Exception leaves do() only when state.change() raised something
+   that is not a CloudException *)
 Theorem C10_smgr_outcome_classes : forall r,
   match r with
   | SIdle | SDone false => s_out (smgr_step r) = ONoop
   | SDone true => s_out (smgr_step r) = ODid
   | SRaise _ | SRoots _ => s_out (smgr_step r) = OBackoff
-  | SChange _ => s_out (smgr_step r) = OExc
+  | SChange c => s_out (smgr_step r) = if isinst c KCloud then OBackoff else OExc
   end.
 Proof. exact smgr_outcome_classes. Qed.
 Print Assumptions C10_smgr_outcome_classes.
 
-(* full strength "every temporary condition raised during a sync step is reported": false of the code —
-   state.change() (path fill-in by get_latest -> provider.info_oid) is called outside the try (finding F-1) *)
-Theorem C10_smgr_every_fault_notified_refuted : ~ smgr_every_fault_notified_full.
-Proof. exact smgr_every_fault_notified_refuted. Qed.
-Print Assumptions C10_smgr_every_fault_notified_refuted.
+Theorem C10_smgr_change_effect : forall c,
+  let s := smgr_step (SChange c) in
+  s_out s = (if isinst c KCloud then OBackoff else OExc) /\ f_punt (s_eff s) = false /\ f_commit (s_eff s) = false /\
+  f_note (s_eff s) = notify c.
+Proof. exact smgr_change_effect. Qed.
+Print Assumptions C10_smgr_change_effect.
 
-Theorem C10_smgr_every_fault_notified_partial : forall r c,
-  r = SRaise c \/ r = SRoots c ->
+(* every temporary / disconnected / invalid-name condition raised anywhere in a sync step — pre_sync/sync, root
+   validation, state.change() (guarded since the fix of finding E-15) — is reported with the kind the chain gives *)
+Theorem C10_smgr_every_fault_notified : forall r c,
+  raised r c ->
   isinst c KTemporary = true \/ isinst c KDisconnected = true \/ isinst c KFileName = true ->
   f_note (s_eff (smgr_step r)) = notify c /\ notify c <> None.
-Proof. exact smgr_every_fault_notified_partial. Qed.
-Print Assumptions C10_smgr_every_fault_notified_partial.
+Proof. exact smgr_every_fault_notified. Qed.
+Print Assumptions C10_smgr_every_fault_notified.
 
 (* ================================================================== (b) the event loops *)
 Theorem C10_emgr_reportable_notified : forall auth i c,
@@ -233,7 +237,7 @@ Print Assumptions C10_backoff_under_faults.
 
 Example C10_backoff_under_faults_nonvacuous :
   all_faulty [SRaise (K KTemporary); SChange (Sub (K KDisconnected)); SRoots (K KToken)] /\
-  smgr_outs [SRaise (K KTemporary); SChange (Sub (K KDisconnected)); SRoots (K KToken)] = [OBackoff; OExc; OBackoff].
+  smgr_outs [SRaise (K KTemporary); SChange (Sub (K KDisconnected)); SRoots (K KToken)] = [OBackoff; OBackoff; OBackoff].
 Proof.
   split; [|reflexivity]. intros r [<-|[<-|[<-|[]]]]; eexists; [left|right; right|right; left]; reflexivity.
 Qed.
